@@ -2,6 +2,7 @@ package c20
 
 import (
 	"fmt"
+	"io"
 	"io/fs"
 	"os"
 	"path/filepath"
@@ -133,4 +134,24 @@ func (r recFS) Open(name string) (fs.File, error) {
 		return nil, &fs.PathError{Op: "open", Path: name, Err: fs.ErrInvalid}
 	}
 	return r.inner.Open(name)
+}
+
+// ReadFile makes fs.ReadFile take the same route as with the bare file
+// system (os.DirFS and fstest.MapFS both implement fs.ReadFileFS), so the
+// wrapped os.DirFS resolves names exactly as in `elps run --root-dir`.
+func (r recFS) ReadFile(name string) ([]byte, error) {
+	rf, ok := r.inner.(fs.ReadFileFS)
+	if !ok {
+		f, err := r.Open(name)
+		if err != nil {
+			return nil, err
+		}
+		defer f.Close() //nolint:errcheck
+		return io.ReadAll(f)
+	}
+	*r.asked = append(*r.asked, name)
+	if !fs.ValidPath(name) {
+		return nil, &fs.PathError{Op: "readfile", Path: name, Err: fs.ErrInvalid}
+	}
+	return rf.ReadFile(name)
 }
